@@ -513,12 +513,127 @@ def run_launch(ctx):
         ctx.merge(res)
 
 
+# ------------------------------------------------------------------------------
+# (d) two notification threads (state subscriber, control subscriber) deliver
+#     to the same pilot concurrently: engine B, every schedule within the
+#     delay bound; the result is that of one of the two sequential orders
+#
+def _race_job(args):
+    from rpmc import report, clientrace, sched as rs
+    from radical.pilot.pilot_manager import PilotManager
+    from radical.pilot.pilot         import Pilot
+    start, na, nb, via, bound = args
+    part = report.Part()
+
+    def make_world(s):
+        w = PWorld()
+        if start != rps.NEW:
+            w.apply((('p1', start),))
+            w.log_pm, w.log_p = list(), list()
+        clientrace.control_locks(s, w.pm, ['_pilots_lock', '_pcb_lock'])
+        clientrace.control_locks(s, w.p1, ['_cb_lock'])
+        return w
+
+    def deliver(w, st, how):
+        d = {'uid': 'p1', 'type': 'pilot', 'state': st}
+        if how == 'control':
+            d['resources'] = {'cpu': 1, 'gpu': 0}
+            return lambda: w.pm.control_cb(rpc.CONTROL_PUBSUB, seams.wire(
+                           {'cmd': 'pilot_activate', 'arg': {'pilot': d}}))
+        return lambda: w.pm._state_sub_cb(rpc.STATE_PUBSUB, seams.wire(
+                       {'cmd': 'update', 'arg': [d]}))
+
+    def bodies(w):
+        return [('A', deliver(w, na, via)), ('B', deliver(w, nb, 'state'))]
+
+    # sequential references
+    allowed = set()
+    for order in ((na, nb), (nb, na)):
+        cur = start
+        for st in order:
+            cur, _ = ref_single(cur, st)
+        allowed.add(cur)
+
+    # exceptions the handlers raise when run one after the other (a
+    # contradicting final state is refused with a ValueError)
+    seq_exc = set()
+    for order in (('A', 'B'), ('B', 'A')):
+        w0 = make_world(rs.Sched())
+        bs = dict(bodies(w0))
+        for name in order:
+            try:
+                bs[name]()
+            except Exception as e:
+                seq_exc.add(type(e).__name__)
+
+    replay = {'part': 'd', 'start': start, 'a': na, 'b': nb, 'via': via}
+    shape  = '%s+%s' % tuple('final' if x in FINAL else 'live'
+                             for x in (na, nb))
+
+    def judge(w, s, res):
+        ann = [st for uid, st, _ in w.log_pm if uid == 'p1']
+        rp_ = dict(replay, schedule=list(s.choices))
+
+        def viol(clause, what):
+            part.violation('%s|PilotManager._update_pilot|%s:%s'
+                           % (clause, via, shape),
+                           {'what': '%s; start=%s A=%s(%s) B=%s end=%s '
+                                    'announced=%s' % (what, start, na, via, nb,
+                                                      w.p1.state, ann)}, rp_)
+        if res != 'done':
+            viol('race-' + res, 'threads did not finish: %s' % res)
+        for t in s.threads:
+            if t.exc is not None and type(t.exc).__name__ not in seq_exc:
+                viol('race-handler-raises', '%s raised %r' % (t.name, t.exc))
+        seq = [start] + ann
+        fin = False
+        for a, b in zip(seq, seq[1:]):
+            if PVAL[b] < PVAL[a] and not (a in FINAL and b in FINAL):
+                viol('race-backward', 'announcement %s after %s' % (b, a))
+            if a in FINAL and b not in FINAL:
+                viol('race-nonfinal-after-final', '%s announced after %s'
+                                                  % (b, a))
+        if w.p1.state not in allowed:
+            viol('race-not-sequential', 'final state %s, sequential orders '
+                 'give %s' % (w.p1.state, sorted(allowed)))
+        part.outcome(('race', start, na, nb, via, w.p1.state, tuple(ann)))
+
+    n, capped = clientrace.explore(
+        make_world, bodies,
+        [PilotManager._update_pilot, PilotManager._state_sub_cb,
+         PilotManager.control_cb, PilotManager._call_pilot_callbacks,
+         Pilot._update], bound, judge)
+    if capped:
+        part.cap('race %s: %d schedules left' % (replay, capped))
+    part.cover(executions=n, race_pairs=1,
+               traces_validated_against_impl=n)
+    return part.dump()
+
+
+def run_race(ctx):
+    bound = 1 if ctx.quick else 2
+    jobs  = list()
+    for start in (rps.NEW, rps.PMGR_LAUNCHING):
+        for na in PSTATES:
+            for nb in PSTATES:
+                for via in ('state', 'control'):
+                    if via == 'control' and na != rps.PMGR_ACTIVE:
+                        continue        # `pilot_activate` carries that state
+                    if PVAL[na] <= PVAL[start] and PVAL[nb] <= PVAL[start]:
+                        continue        # two late notifications: part (a)
+                    jobs.append((start, na, nb, via, bound))
+    for res in seams.pmap(_race_job, jobs, ctx.workers):
+        ctx.merge(res)
+    ctx.set(race_delay_bound=bound)
+
+
 def run(ctx):
     ctx.level = 'model_checking'
     run_client(ctx)
     run_tmgr_view(ctx)
     run_agent(ctx)
     run_launch(ctx)
+    run_race(ctx)
     ctx.set(exhaustive=True,
             rule='(a) state = Pilot.state, transition = batch of 1..2 (3 '
                  'thorough) notifications over {p1, unknown} x 8 states, graph '
